@@ -670,6 +670,7 @@ func init() {
 func runC20(c *RunCtx) {
 	t := c.T
 	g := &Gen{t: t, cfg: drawCfg(t, c.Thorough)}
+	g.cfg.WrapObj = false // 64 KiB object lists in up to 16 tasks under the race detector: seconds per run
 	if g.cfg.ListCap > 300 {
 		g.cfg.ListCap = 300
 	}
